@@ -966,7 +966,7 @@ func TestPropRoundTrip(t *testing.T) {
 	small := gen.Geom(baseOpts(3, 5))
 	long := gen.Geom(baseOpts(1, 60))
 	wideG := wide()
-	stats.Check(t, 80000, 3000000, func(rt *rapid.T) {
+	stats.Check(t, 80000, 2500000, func(rt *rapid.T) {
 		var c Case
 		switch sz := rapid.IntRange(0, 39).Draw(rt, "size"); {
 		case sz == 0:
@@ -991,7 +991,7 @@ func TestPropRoundTrip(t *testing.T) {
 func TestPropCollection(t *testing.T) {
 	assumptions()
 	member := gen.Geom(baseOpts(2, 4))
-	stats.Check(t, 50000, 1500000, func(rt *rapid.T) {
+	stats.Check(t, 50000, 1000000, func(rt *rapid.T) {
 		var c Case
 		n := rapid.IntRange(1, 4).Draw(rt, "members")
 		col := make(orb.Collection, n)
@@ -1039,7 +1039,7 @@ func TestPropCollection(t *testing.T) {
 func TestPropRetained(t *testing.T) {
 	assumptions()
 	small := gen.Geom(baseOpts(2, 4))
-	stats.Check(t, 30000, 800000, func(rt *rapid.T) {
+	stats.Check(t, 30000, 500000, func(rt *rapid.T) {
 		var c Case
 		n := rapid.IntRange(2, 4).Draw(rt, "n")
 		same := rapid.IntRange(0, 4).Draw(rt, "same kind") == 0
